@@ -11,6 +11,7 @@ Harper's char-indexed tokens, with the third-party outputs as universally quanti
 * `maskParse_inbounds_sorted`, `maskParse_faithful`   `parsers::Mask::parse`;
 * `withoutInitiators_wf`, `unitParse_faithful`        comment leaders, per-line offsets;
 * `parseInlineTag_terminates`, `markInlineTags_terminates`   the JSDoc inline-tag scanner;
+* `javadocMark_spec`, `javadocMark_last_window`       the JavaDoc `@tag argument` loop;
 * `lhsMask_safe`, `lhsMask_classifies`                the Literate Haskell masker;
 * `gitCommit_prefix`                                  the commit-message cut;
 * `offsetCursor_exact`, `markdownOffsets_exact`       the Typst cursor and Markdown's
@@ -183,6 +184,79 @@ theorem markInlineTags_terminates (toks : List Tok) :
 example : parseInlineTag 4 [.punct .OpenCurly, .punct .At, .word] = .ok none := by decide
 example : parseInlineTag 6 [.punct .OpenCurly, .punct .At, .word, .space 1, .word, .punct .CloseCurly, .word] =
     .ok (some 6) := by decide
+
+/-! ## JavaDoc block tags, Go directives -/
+
+/-- The block-tag loop of javadoc.rs (`for i in 3..len`, reading `tokens[i-3..=i]` of the current
+vector): never indexes out of bounds; keeps the number of tokens and every span; every
+`At Word Space Word` window of the token list — anywhere, THE LAST FOUR TOKENS INCLUDED — ends up
+Unlintable; and a token that was changed lies in such a window and was only made Unlintable. -/
+theorem javadocMark_spec (toks : List Tok) :
+    ∃ r, javadocMark toks = .ok r ∧ r.length = toks.length ∧
+      (∀ (j : Nat), WindowAt toks j → ∀ (k : Nat), k < 4 → r[j + k]? = (toks[j + k]?).map unl) ∧
+      (∀ (k : Nat), r[k]? = toks[k]? ∨
+        (r[k]? = (toks[k]?).map unl ∧ ∃ j, j ≤ k ∧ k < j + 4 ∧ WindowAt toks j)) := by
+  refine ⟨jdScan toks, javadocMark_eq toks, jdScan_length toks,
+    jdScan_window _ toks rfl, ?_⟩
+  intro k
+  by_cases h : (jdScan toks)[k]? = toks[k]?
+  · exact Or.inl h
+  · right
+    refine ⟨?_, jdScan_unchanged _ toks rfl k h⟩
+    rcases jdScan_get _ toks rfl k with h' | h'
+    · exact absurd h' h
+    · exact h'
+
+/-- in particular the last window: a comment that ends in `@throws IOException` -/
+theorem javadocMark_last_window (pre : List Tok) (a b c d : Tok) (h : tagWindow a b c d = true) :
+    ∃ r, javadocMark (pre ++ [a, b, c, d]) = .ok r ∧
+      r.drop pre.length = [unl a, unl b, unl c, unl d] := by
+  obtain ⟨r, hr, hlen, hwin, _⟩ := javadocMark_spec (pre ++ [a, b, c, d])
+  have hw : WindowAt (pre ++ [a, b, c, d]) pre.length := ⟨a, b, c, d, [], by simp, h⟩
+  refine ⟨r, hr, ?_⟩
+  apply List.ext_getElem?
+  intro k
+  by_cases hk : k < 4
+  · have := hwin pre.length hw k hk
+    rw [List.getElem?_drop, this, List.getElem?_append_right (by omega)]
+    have : pre.length + k - pre.length = k := by omega
+    rw [this]
+    match k, hk with
+    | 0, _ => rfl
+    | 1, _ => rfl
+    | 2, _ => rfl
+    | 3, _ => rfl
+  · rw [List.getElem?_eq_none (by simp [hlen]; omega), List.getElem?_eq_none (by simp; omega)]
+
+def atT (s : Nat) : Tok := ⟨⟨s, s + 1⟩, .punct .At⟩
+def wordT (s e : Nat) : Tok := ⟨⟨s, e⟩, .word⟩
+def spaceT (s : Nat) : Tok := ⟨⟨s, s + 1⟩, .space 1⟩
+
+example : tagWindow (atT 0) (wordT 1 4) (spaceT 4) (wordT 5 11) = true := by decide
+
+/-- `/** @see Reader */`: exactly four tokens, all masked -/
+example : javadocMark [atT 0, wordT 1 4, spaceT 4, wordT 5 11] =
+    .ok [unl (atT 0), unl (wordT 1 4), unl (spaceT 4), unl (wordT 5 11)] := by decide
+
+/-- `… fox\n@throws IOException` as the end of a comment: the last window is masked, the prose
+before it is not -/
+example : javadocMark [wordT 0 3, ⟨⟨3, 4⟩, .newline 1⟩, atT 4, wordT 5 11, spaceT 11, wordT 12 23] =
+    .ok [wordT 0 3, ⟨⟨3, 4⟩, .newline 1⟩, unl (atT 4), unl (wordT 5 11), unl (spaceT 11), unl (wordT 12 23)] := by
+  decide
+
+/-- `@deprecated` alone (no argument) is not a window: left as it is -/
+example : javadocMark [atT 0, wordT 1 11] = .ok [atT 0, wordT 1 11] := by decide
+
+/-- Go: `//go:x` followed by an empty comment line: the start is moved past the end; before fix
+`Span::try_get_content no longer underflows on an inverted span` this panicked in builds with
+overflow checks (`Span::len` underflow); now the block yields no tokens -/
+example : goParse (fun c => c == ' ' || c == '\n') ['/', '/', 'g', 'o', ':', 'x', '\n', '/', '/'] spy =
+    .ok [] := by decide
+/-- a directive block yields no tokens, whatever follows the directive -/
+example : goParse (fun c => c == ' ' || c == '\n')
+    ['/', '/', 'g', 'o', ':', 'x', '\n', '/', '/', ' ', 'a', 'b'] spy = .ok [] := by decide
+example : goParse (fun c => c == ' ' || c == '\n') ['/', '/', ' ', 'a', 'b'] spy =
+    .ok [⟨⟨3, 5⟩, .word⟩] := by decide
 
 /-! ## (d) Literate Haskell -/
 
